@@ -35,6 +35,22 @@ fn ord(o: std::cmp::Ordering) -> &'static str {
 }
 
 fn observe<A: BEDLike + Clone, B: BEDLike + Clone>(xs: &[A], ys: &[B]) -> String {
+    // every second record is REBUILT IN PLACE through the setters from a record of the other flavour (its name buffer, if the
+    // type keeps one, is overwritten): what was computed for the old content must not stick to the new one
+    let mut rebuilt: Vec<A> = xs.to_vec();
+    if !ys.is_empty() {
+        for i in (1..xs.len()).step_by(2) {
+            let src = &xs[i];
+            let z = &mut rebuilt[i - 1];
+            // first compare the old content (so that anything remembered about these two buffers is fresh), then overwrite it
+            let _ = z.compare(src); let _ = src.compare(z); let _ = z.overlap(src);
+            let old = xs[i - 1].to_genomic_range();
+            z.set_chrom(src.chrom()).set_start(src.start()).set_end(src.end());
+            let _ = z.compare(src); let _ = z.n_overlap(src);
+            z.set_chrom(old.chrom()).set_start(old.start()).set_end(old.end());
+        }
+    }
+    let xs: &[A] = &rebuilt;
     let mut w = W::new();
     w.n(xs.len());
     for a in xs { w.n(a.len()); }
